@@ -100,9 +100,9 @@ fn check_cmd(args: &[String]) -> i32 {
       CheckSpec {
         property: property.clone(), world: "W1".into(), tier: tier.clone(), seed, level: "exploration".into(),
         rule: if c04 {
-          "W1 session world, C04 profile: one real Interpreter per run on a fresh thread with a PRNG-chosen hash seed; a PRNG-generated session of 3-40 statements biased to mutable matrix targets (element kinds f64/u8/i64/u16/i8/bool/string, shapes up to 5x5) walking the index-form grid (scalar, index vector, inclusive/exclusive range, ':', logical mask, index held in a variable; one or two positions) with scalar and vector sources, assignments and op-assignments, several per variable, faults (out-of-range at a chosen position, wrong source kind, failing source, undefined/immutable target) placed inside statements at a per-run rate 0-40%; after every statement the full symbol table is compared with a reference store (frame condition, failure atomicity, read-back). A run is non-trivial if at least one statement changed the store; distinct = distinct event-log digest (statement text, outcome, store digest per step).".into()
+          "W1 session world, C04 profile: one real Interpreter per run on a fresh thread with a PRNG-chosen hash seed; a PRNG-generated session of 3-40 statements biased to mutable matrix targets (element kinds f64/f32/u8..u128/i8..i128/bool/string, a few per run; shapes up to 5x5, i.e. every fixed-size and dynamic storage class) walking the index-form grid (scalar, index vector, inclusive/exclusive range, ':', logical mask, index held in a variable; one or two positions) with scalar and vector sources, assignments and op-assignments, several per variable, faults (out-of-range at a chosen position, wrong source kind, failing source, undefined/immutable target) placed inside statements at a per-run rate 0-40%; after every statement the full symbol table is compared with a reference store (frame condition, failure atomicity, read-back). A run is non-trivial if at least one statement changed the store; distinct = distinct event-log digest (statement text, outcome, store digest per step).".into()
         } else {
-          "W1 session world, C05 profile: one real Interpreter per run on a fresh thread with a PRNG-chosen hash seed; a PRNG-generated session of 3-40 statements over 2-5 names and value classes scalar/matrix/record/tuple/set/table: define, mutable define, define-from-variable/field/element (aliasing chains), assign, indexed assign, op-assign, field and tuple-element assign, tuple destructure, reads; faults are real statements engineered to fail at a chosen internal site (redefinition, undefined/immutable target, failing source expression, index out of range at position k, wrong kind, name collision / too many names at position k of a destructure, unconvertible annotation) at a per-run rate 0-40%; after every statement outcome and full symbol table are compared with a reference store with copy semantics. A run is non-trivial if at least one statement changed the store; distinct = distinct event-log digest.".into()
+          "W1 session world, C05 profile: one real Interpreter per run on a fresh thread with a PRNG-chosen hash seed; a PRNG-generated session of 3-40 statements over 2-5 names and value classes scalar/matrix/record/tuple/set/table/map (records and tuples may nest a matrix or record): define, mutable define, kind-annotated define, define-from-variable/field/element/map-entry (aliasing chains), assign, indexed assign, op-assign, field / tuple-element / map-entry assign, selector op-assign forms that Mech does not implement, tuple destructure, reads; faults are real statements engineered to fail at a chosen internal site (redefinition, undefined/immutable target, failing source expression, index out of range at position k, wrong kind, name collision / too many names at position k of a destructure, unconvertible annotation) at a per-run rate 0-40%; after every statement outcome and full symbol table are compared with a reference store with copy semantics. A run is non-trivial if at least one statement changed the store; distinct = distinct event-log digest.".into()
         },
         worker_args: vec!["worker".into(), "--world".into(), "W1".into(), "--profile".into(), property.clone(), "--seed".into(), seed.to_string()],
         runs: if thorough { 1_500_000 } else { 60_000 },
@@ -192,7 +192,7 @@ fn check_cmd(args: &[String]) -> i32 {
         assumptions: vec![
           "C07 names the loader and the constant decoder; run_program is never called on damaged or hostile files".into(),
           "CRC-32 detects every burst of at most 32 bits, so t/b/u must be rejected outright; for the other kinds only panic/hang/allocation are judged".into(),
-          "hang is decided by the loops' own bounds plus the 120 s watchdog backstop".into(),
+          "hang is decided by the loops' own bounds plus the 60 s watchdog backstop".into(),
         ],
         expected_reach: vec!["fault:t".into(), "fault:b".into(), "fault:u".into(), "fault:z".into(), "fault:a".into(), "fault:r".into(), "fault:s".into(), "fault:c".into(), "reach:files-emitted".into(), "reach:loaded-through-real-file".into()],
         exhaustive: false,
